@@ -279,12 +279,28 @@ def shard_stream(arg) -> E.Tally:
                 other = [r for r in raised if r[1] != "ValueError" or not (pos <= r[0] < pos + reps)]
                 _judge(t, "MqttTransport", name, pos, got, [None] if not other else other, excs, want)
             # (e) MQTT: a valid frame inside an envelope whose timestamp is undatable / has no zone / has no fraction
-            for ts_name, ts in () if name != names[0] else (("empty", ""), ("words", "yesterday at noon"), ("no-zone", "2024-02-29T12:05:59.123456"), ("no-fraction", "2024-02-29T12:05:59+00:00"), ("zulu", "2024-02-29T12:05:59.5Z")):
+            # (f) saved-state dict / packet log: a valid frame under a timestamp that cannot be dated (or an odd but datable one)
+            for ts_name, ts in () if name != names[0] else (("empty", ""), ("words", "yesterday at noon"), ("month-13", "2024-13-29T12:05:59.500000"), ("truncated", "2024-02-29T12:"), ("digit-O", "2024-02-29T12:O5:59.500000"), ("epoch", "1970-01-01T00:00:13.000000"), ("far-future", "2099-12-31T23:59:59.999999")):
+                datable = ts_name in ("epoch", "far-future")
+                lines = valid[:pos] + [valid[0]] + valid[pos:]
+                want2 = [v[4:] for v in valid]
+                if datable:
+                    want2 = want2[:pos] + [valid[0][4:]] + want2[pos:]
+                keys = [_stamp(k) for k in range(len(lines))]
+                keys[pos] = ts
+                t.n += 1
+                got, lost, excs, _ = rxworld.replay_source(dict(zip(keys, lines)), use_real_protocol=True)
+                _judge(t, "FileTransport(dict)", f"ts:{ts_name}", pos, got, lost, excs, want2)
+                if len(ts) == 26:  # (a log line is cut at fixed columns: only same-width stamps are 'a line with a bad timestamp')
+                    text = "".join(f"{k_} {ln}\n" for k_, ln in zip(keys, lines))
+                    got, lost, excs, _ = rxworld.replay_source(text, use_real_protocol=True)
+                    _judge(t, "FileTransport(log)", f"ts:{ts_name}", pos, got, lost, excs, want2)
+            for ts_name, ts in () if name != names[0] else (("empty", ""), ("words", "yesterday at noon"), ("no-zone", "2024-02-29T12:05:59.123456"), ("no-fraction", "2024-02-29T12:05:59+00:00"), ("zulu", "2024-02-29T12:05:59.5Z"), ("epoch-aware", "1970-01-01T00:00:13+00:00"), ("epoch-zulu", "1970-01-01T00:00:13Z"), ("epoch-naive", "1970-01-01T00:00:13.000000"), ("far-future", "2099-12-31T23:59:59.999999+00:00"), ("offset", "2024-02-29T14:05:59.5+02:00")):
                 lines = valid[:pos] + [valid[0]] + valid[pos:]
                 stamps = [f"2024-02-29T12:05:{k:02d}.000000+00:00" for k in range(len(lines))]
                 stamps[pos] = ts
                 got, raised, excs, _ = rxworld.mqtt_messages(lines, stamps)
-                datable = ts_name in ("no-zone", "no-fraction", "zulu")
+                datable = ts_name not in ("empty", "words")
                 other = [r for r in raised if r[1] != "ValueError" or r[0] != pos or datable]
                 t.n += 1
                 want2 = [v[4:] for v in valid]
